@@ -238,10 +238,11 @@ fn auto_never_is_strip_stream() {
 /// formatter of strip_stream.rs: all fragments are written through a single acquisition of the
 /// inner lock.  Pass-through arm: the text arrives as well.
 #[cfg_attr(kani, kani::proof, kani::unwind(8),
-    kani::stub(core::fmt::write, crate::strip::verif_kani_strip_stream::fmt_write_two_fragments))]
+    kani::stub(core::fmt::write, crate::verif_kani::fmt_stub::fmt_write_two_fragments))]
+#[cfg_attr(not(kani), test)]
 fn lock_write_fmt_once_pass() {
     let mut s = AutoStream::always_ansi(Mock::new(0));
-    let (f1, f2) = (crate::strip::verif_kani_strip_stream::FRAG1, crate::strip::verif_kani_strip_stream::FRAG2);
+    let (f1, f2) = (crate::verif_kani::fmt_stub::FRAG1, crate::verif_kani::fmt_stub::FRAG2);
     let r = s.write_fmt(format_args!("{f1}{f2}"));
     assert!(r.is_ok(), "a formatted write succeeds on a good writer");
     let m = s.into_inner();
@@ -253,14 +254,19 @@ fn lock_write_fmt_once_pass() {
 /// acquisition however many fragments the formatter emits and runs the scanner yields
 #[cfg_attr(kani, kani::proof, kani::unwind(8),
     kani::stub(crate::adapter::strip::next_bytes, crate::adapter::verif_kani_strip_scan::next_bytes_recorder),
-    kani::stub(core::fmt::write, crate::strip::verif_kani_strip_stream::fmt_write_two_fragments))]
+    kani::stub(core::fmt::write, crate::verif_kani::fmt_stub::fmt_write_two_fragments))]
+#[cfg_attr(not(kani), test)]
 fn lock_write_fmt_once_strip() {
     let mut s = AutoStream::never(CountMock::new());
-    let (f1, f2) = (crate::strip::verif_kani_strip_stream::FRAG1, crate::strip::verif_kani_strip_stream::FRAG2);
+    let (f1, f2) = (crate::verif_kani::fmt_stub::FRAG1, crate::verif_kani::fmt_stub::FRAG2);
     let r = s.write_fmt(format_args!("{f1}{f2}"));
     assert!(r.is_ok(), "a formatted write succeeds on a good writer");
-    let scans = unsafe { crate::adapter::verif_kani_strip_scan::REC_N };
-    assert!(scans >= 2, "a formatted write to a Never stream sends every fragment through the stripper");
+    // (the recorder only exists under Kani; the native replay runs the real scanner)
+    #[cfg(kani)]
+    {
+        let scans = unsafe { crate::adapter::verif_kani_strip_scan::REC_N };
+        assert!(scans >= 2, "a formatted write to a Never stream sends every fragment through the stripper");
+    }
     let m = s.into_inner();
     assert!(m.locks == 1, "one formatted write acquires the inner lock exactly once");
 }
@@ -270,6 +276,7 @@ fn lock_write_fmt_once_strip() {
 macro_rules! dispatch_case {
     ($name:ident, $choice:expr, $strip:expr, $reported:expr) => {
         #[cfg_attr(kani, kani::proof)]
+        #[cfg_attr(not(kani), test)]
         fn $name() {
             let s = AutoStream::new(Mock::new(0), $choice);
             assert!(matches!(s.inner, StreamInner::Strip(_)) == $strip, "Never builds a stripping stream, AlwaysAnsi (and Always off Windows) a pass-through stream");
@@ -286,6 +293,7 @@ dispatch_case!(auto_new_always, ColorChoice::Always, false, ColorChoice::AlwaysA
 macro_rules! passthrough_case {
     ($name:ident, $which:expr) => {
         #[cfg_attr(kani, kani::proof, kani::unwind(12))]
+        #[cfg_attr(not(kani), test)]
         fn $name() {
             let buf = [vk::any_u8(), vk::any_u8()];
             let mut s = AutoStream::always_ansi(Mock::new(0));
@@ -371,6 +379,7 @@ macro_rules! never_routed_case {
     ($name:ident, $which:expr) => {
         #[cfg_attr(kani, kani::proof, kani::unwind(8),
             kani::stub(crate::adapter::strip::next_bytes, crate::adapter::verif_kani_strip_scan::next_bytes_recorder))]
+        #[cfg_attr(not(kani), test)]
         fn $name() {
             let data: &[u8] = b"ab";
             let mut s = AutoStream::never(CountMock::new());
@@ -385,11 +394,15 @@ macro_rules! never_routed_case {
             } else {
                 assert!(s.flush().is_ok(), "flush succeeds on a good writer");
             }
-            let scans = unsafe { crate::adapter::verif_kani_strip_scan::REC_N };
-            assert!((scans > 0) == ($which != 3), "a Never stream routes every write through the strip stream");
-            if $which != 3 {
-                let first = unsafe { crate::adapter::verif_kani_strip_scan::REC[0] };
-                assert!(first.in_ptr == data.as_ptr() as usize && first.in_len == 2, "a Never stream hands the caller's (first non-empty) buffer to the stripper");
+            // (the recorder only exists under Kani; the native replay runs the real scanner)
+            #[cfg(kani)]
+            {
+                let scans = unsafe { crate::adapter::verif_kani_strip_scan::REC_N };
+                assert!((scans > 0) == ($which != 3), "a Never stream routes every write through the strip stream");
+                if $which != 3 {
+                    let first = unsafe { crate::adapter::verif_kani_strip_scan::REC[0] };
+                    assert!(first.in_ptr == data.as_ptr() as usize && first.in_len == 2, "a Never stream hands the caller's (first non-empty) buffer to the stripper");
+                }
             }
             let m = s.into_inner();
             assert!(m.locks == 1, "every Write method of AutoStream acquires the inner lock exactly once");
